@@ -49,6 +49,17 @@ func main() {
 		os.Exit(cmdExplain(os.Args[2:]))
 	case "selftest":
 		os.Exit(cmdSelftest(os.Args[2:]))
+	case "baseline":
+		// (re)generate checker/baseline_names.json from /repo's current tree: the names the rules are written against
+		L, err := load(loadOpts{noCanon: true})
+		if err == nil {
+			err = writeBaseline(L)
+		}
+		if err != nil {
+			fmt.Println("ERROR:", err)
+			os.Exit(2)
+		}
+		fmt.Println("wrote", baselinePath())
 	case "ssa":
 		cmdSSA(os.Args[2:])
 	case "sym":
@@ -127,6 +138,10 @@ func runCheck(def *propDef, tier, overlayPath string, writeEv bool) (code int) {
 	}
 	c.L = L
 	c.Extra["packages_loaded"] = len(L.All)
+	if len(L.CanonNotes) > 0 {
+		c.Notes = append(c.Notes, L.CanonNotes...)
+		fmt.Println("NOTE:", L.CanonNotes[0])
+	}
 	defer func() {
 		if r := recover(); r != nil {
 			c.undecided(def.id+".0", "panic", fmt.Sprintf("checker panic: %v", r))
